@@ -117,7 +117,12 @@ type simInfo struct {
 }
 
 func (i simInfo) Name() string { return i.name }
-func (i simInfo) Size() int64  { return int64(len(i.spec.Data)) }
+func (i simInfo) Size() int64 {
+	if i.spec.StatSize > 0 {
+		return int64(i.spec.StatSize - 1)
+	}
+	return int64(len(i.spec.Data))
+}
 func (i simInfo) Mode() fs.FileMode {
 	if i.spec.IsDir {
 		return fs.ModeDir | 0o755
